@@ -5,12 +5,12 @@
    the relativization choices). *)
 From DV Require Import Base.Prelude Model.NameM Model.TokM Model.RdTextM.
 From DV Require Import Proofs.NameValid Proofs.NameText Proofs.TokEsc Proofs.TokTxt Proofs.TokWords
-     Proofs.TokDec Proofs.TokHex Proofs.TokShape Proofs.TokGeneric Proofs.TokUtf8 Proofs.RdTextName Proofs.RdTextAddr Proofs.RdTextBitmap Proofs.RdTextTypes Proofs.RdTextB32 Proofs.RdTextSig Proofs.RdTextEui Proofs.RdTextFmtHex Proofs.RdTextTail Proofs.RdTextGpos Proofs.RdTextApl.
+     Proofs.TokDec Proofs.TokHex Proofs.TokShape Proofs.TokGeneric Proofs.TokUtf8 Proofs.RdTextName Proofs.RdTextAddr Proofs.RdTextBitmap Proofs.RdTextTypes Proofs.RdTextB32 Proofs.RdTextSig Proofs.RdTextEui Proofs.RdTextFmtHex Proofs.RdTextTail Proofs.RdTextGpos Proofs.RdTextApl Proofs.RdTextWks.
 From DV Require Model.SchemaM.
 Open Scope Z_scope.
 
 Definition is_rest (f : tfield) : bool :=
-  match f with FHexRest | FB64Rest _ | FTxtRest | FBitmap | FQOpt | FNamesRest | FB64RestOpt | FB64RestE | FKeyRec | FAplRest => true | _ => false end.
+  match f with FHexRest | FB64Rest _ | FTxtRest | FBitmap | FQOpt | FNamesRest | FB64RestOpt | FB64RestE | FKeyRec | FAplRest | FWksPorts => true | _ => false end.
 
 (* non-empty; the fields that read the rest of the line come last *)
 Fixpoint schema_wf (fs : list tfield) : Prop :=
@@ -54,6 +54,9 @@ Definition val_ok (f : tfield) (v : tval) : Prop :=
   | FMac, VBytes b => all_bytes b = true /\ b <> [] /\ zlen b <= 65535
   | FOther, VBytes b => all_bytes b = true /\ zlen b <= 65535
   | FGposStr, VBytes b => (exists p, SchemaM.parse_float b = Some p) /\ zlen b <= 255
+  | FAddr4S, VBytes b => all_bytes b = true /\ length b = 4%nat
+  | FWksProto, VInt z => 0 <= z <= 255
+  | FWksPorts, VBytes bm => all_bytes bm = true /\ wks_canon bm /\ zlen bm <= 8192
   | FAplRest, VApl items => Forall item_ok items
   | FKeyRec, VKey f p a at_ k =>
       0 <= f <= 65535 /\ 0 <= p <= 255 /\ 0 <= a <= 255 /\ at_ = [] /\ all_bytes k = true /\
@@ -210,7 +213,7 @@ Lemma field_ok sty c f v ftext v' R q bl :
                              \/ exists q' bl', forallb is_blank bl' = true /\ st_end = stq q' (bl' ++ R)).
 Proof.
   intros (Hhs & Hbs & HO) Hv Hp He Hbl HR1 HR2.
-  destruct f as [maxv| |tokmax ctormax ne| | |sc| |v6| | | | | |k| |maxc| |en| | | | |bmax| | | |ipsec| | | | | |]; destruct v as [z|b|n|l|ws|nl|g a gw|items|kf kp ka kat kk]; cbn [val_ok] in Hv; try contradiction;
+  destruct f as [maxv| |tokmax ctormax ne| | |sc| |v6| | | | | |k| |maxc| |en| | | | |bmax| | | |ipsec| | | | | | | | |]; destruct v as [z|b|n|l|ws|nl|g a gw|items|kf kp ka kat kk]; cbn [val_ok] in Hv; try contradiction;
     cbn [print_field] in Hp; cbn [expect] in He; cbn [is_rest] in HR1, HR2.
   - (* FDec *)
     inversion Hp; subst ftext. inversion He; subst v'. specialize (HR1 eq_refl).
@@ -855,6 +858,73 @@ Proof.
       rewrite has_bs_safe by exact Hs. cbn [negb bind fst snd]. unfold as_string, is_identifier, is_quoted. cbn [ttype tvalue].
       change (tIDENT =? tIDENT) with true. change (0 =? 0) with true. reflexivity.
     + cbn [ctor_field]. rewrite utf8_ascii by exact Ha. cbn [bind]. replace (zlen b >? 255) with false by lia. reflexivity.
+  - (* FAddr4S *)
+    destruct Hv as (Hb & Hl). inversion He; subst v'. specialize (HR1 eq_refl).
+    destruct (ipv4_roundtrip b Hb Hl) as (t & E1 & E2). rewrite E1 in Hp. inversion Hp; subst t.
+    destruct (ipv4_ntoa_word b ftext Hb E1) as [Hs Hne].
+    exists (mkTok tIDENT ftext (has_bs ftext) None), (stq false R).
+    split; [apply get0_word_q; auto using units_safe|]. split; [reflexivity|]. split.
+    { unfold tok_plain, is_identifier. cbn [ttype tvalue]. rewrite safe_word_not_hash by exact Hs. repeat split; reflexivity. }
+    split; [apply stq_len_word|].
+    intros stX HX _. exists (VBytes ftext), (stq false R).
+    split; [|split; [|split; [intros _; exists false; reflexivity|discriminate]]].
+    + cbn [parse_field]. unfold get_string, get_unescaped. rewrite HX. cbn [bind fst snd]. unfold unescape. cbn [tesc].
+      rewrite has_bs_safe by exact Hs. cbn [negb bind fst snd]. unfold as_string, is_identifier, is_quoted. cbn [ttype tvalue].
+      change (tIDENT =? tIDENT) with true. change (0 =? 0) with true. reflexivity.
+    + cbn [ctor_field]. rewrite E2. reflexivity.
+  - (* FWksProto *)
+    inversion Hp; subst ftext. inversion He; subst v'. specialize (HR1 eq_refl).
+    pose proof (dec_safe z ltac:(lia)) as Hs.
+    exists (mkTok tIDENT (dec z) (has_bs (dec z)) None), (stq false R).
+    split; [apply get0_word_q; auto using units_safe, dec_nonempty|]. split; [reflexivity|]. split.
+    { unfold tok_plain, is_identifier. cbn [ttype tvalue]. rewrite safe_word_not_hash by exact Hs. repeat split; reflexivity. }
+    split; [apply stq_len_word|].
+    intros stX HX _. exists (VInt z), (stq false R).
+    split; [|split; [|split; [intros _; exists false; reflexivity|discriminate]]].
+    + cbn [parse_field]. unfold get_string, get_unescaped. rewrite HX. cbn [bind fst snd]. unfold unescape. cbn [tesc].
+      rewrite has_bs_safe by exact Hs. cbn [negb bind fst snd]. unfold as_string, is_identifier, is_quoted. cbn [ttype tvalue].
+      change (tIDENT =? tIDENT) with true. change (0 =? 0) with true. cbn [orb negb andb bind fst snd].
+      rewrite (dec_decimal z ltac:(lia)).
+      replace (is_nil (dec z)) with false by (pose proof (dec_nonempty z); destruct (dec z); [congruence|reflexivity]).
+      cbn [negb andb]. rewrite dec_value_pv, pv_dec by lia. reflexivity.
+    + cbn [ctor_field]. replace ((z <? 0) || (z >? 255)) with false by lia. reflexivity.
+  - (* FWksPorts *)
+    destruct Hv as (Hb & Hcan & Hl). specialize (HR2 eq_refl). inversion He; subst v'. inversion Hp; subst ftext. clear Hp.
+    destruct (wks_tokens (wks_ports b) (wks_ports_range b Hl)) as (Hw & Hsafe & Hback).
+    pose proof (wks_bitmap_roundtrip b Hb Hcan) as Hrt.
+    destruct (map dec (wks_ports b)) as [|t1 ts'] eqn:Ets.
+    + cbn [join_sp app].
+      destruct (get0_end_q_len q bl R Hbl HR2) as (t & st & H1 & H2 & H3 & H4 & H5 & E).
+      exists t, st. split; [exact E|]. split; [exact H4|]. split.
+      { destruct (eol_not_ws t H1) as [A B]. unfold tok_plain. rewrite A, B, H2. repeat split; reflexivity. }
+      split; [unfold stq; cbn [inp]; rewrite !app_length; lia|].
+      intros stX HX _.
+      assert (Hst : exists st2, unget st t = Ok st2 /\ ungot st2 = Some t).
+      { unfold unget. rewrite H4. eexists. split; reflexivity. }
+      destruct Hst as (st2 & U1 & U2).
+      exists (VBytes b), st2. split; [|split; [reflexivity|split; [discriminate|intros _; left; exists t; split; assumption]]].
+      cbn [parse_field]. unfold get_remaining, rem_fuel. rewrite grl_unfold. rewrite HX. cbn [bind]. rewrite H1, U1.
+      cbn [bind rev fst snd]. cbn [map] in Hback. rewrite Hback. cbn [bind]. rewrite Hrt. reflexivity.
+    + inversion Hw as [|? ? [Hu1 Hne1] Hw']; subst. inversion Hsafe as [|? ? Hs1 _]; subst.
+      rewrite join_sp_cons_spaced.
+      assert (Hshape : bl ++ (t1 ++ spaced ts') ++ R = bl ++ t1 ++ (spaced ts' ++ R)) by (rewrite <- !app_assoc; reflexivity).
+      rewrite Hshape.
+      pose proof (get0_word_q q bl t1 (spaced ts' ++ R) Hbl Hu1 Hne1 (spaced_word_end ts' R HR2)) as E.
+      exists (utok t1), (stq false (spaced ts' ++ R)).
+      split; [exact E|]. split; [reflexivity|]. split.
+      { unfold tok_plain, is_identifier, utok. cbn [ttype tvalue]. rewrite safe_word_not_hash by exact Hs1. repeat split; reflexivity. }
+      split; [apply stq_len_word|].
+      intros stX HX HL.
+      destruct (grl_uwords ts' Hw' false R (S (length (inp stX))) [utok t1] HR2) as (te & st & T1 & T2 & E2).
+      { assert (Hlen : (length ts' <= length (spaced ts' ++ R))%nat).
+        { clear. rewrite app_length. induction ts' as [|x l IH]; cbn [spaced flat_map length]; [lia|].
+          rewrite app_length. cbn [length]. unfold spaced in IH. lia. }
+        unfold stq in HL. cbn [inp pend app] in HL. lia. }
+      exists (VBytes b), st. split; [|split; [reflexivity|split; [discriminate|intros _; left; exists te; split; assumption]]].
+      cbn [parse_field]. unfold get_remaining, rem_fuel. rewrite grl_unfold. rewrite HX. cbn [bind].
+      assert (Heol : is_eol_or_eof (utok t1) = false) by reflexivity. rewrite Heol.
+      rewrite E2. cbn [bind rev app fst snd].
+      change (utok t1 :: map utok ts') with (map utok (t1 :: ts')). rewrite Hback. cbn [bind]. rewrite Hrt. reflexivity.
   - (* FAplRest *)
     specialize (HR2 eq_refl). inversion He; subst v'.
     destruct (map_res apl_item_text items) as [ts| |] eqn:Ets; cbn [bind] in Hp; try discriminate.
